@@ -16,6 +16,7 @@ import (
 	"context"
 	"fmt"
 	"net"
+	goruntime "runtime"
 	"sort"
 	"strings"
 	"time"
@@ -453,6 +454,7 @@ func (w *world) kickChecker() {
 	case w.checkKick <- struct{}{}:
 	default:
 	}
+	goruntime.Gosched()
 }
 
 // checker evaluates the controller's bookkeeping invariant with the main loop parked in its select, exactly as
@@ -462,6 +464,7 @@ func (w *world) checker() {
 		resume := w.gc.PauseForSim()
 		w.or.consistency()
 		resume()
+		goruntime.Gosched()
 	}
 }
 
